@@ -108,3 +108,100 @@ def statistics_iadd(c):
     )
     c.mutant("self.filtered[filter_name] += count", "self.filtered[filter_name] = count")
     c.mutant("self.n += other.n", "self.n = other.n")
+
+
+# ------------------------------------------------------------------------------ Statistics._collect_modifier
+from pyvc.api import FixedListT, Str
+
+TRUSTED.append("the per-adapter statistics lists (adapter_stats) are abstract in _collect_modifier: only which modifier they come from is tracked")
+schema("StatsDict")
+schema("AdapterStatsList", source=Int)
+PAIR = FixedListT(OptT(Int), 2)
+CollectT = ObjT("Statistics", with_adapters=PAIR, quality_trimmed_bp=PAIR, poly_a_trimmed_lengths=FixedListT(OptT(ObjT("Histogram")), 2),
+                adapter_stats=FixedListT(ObjT("AdapterStatsList"), 2), reverse_complemented=OptT(Int))
+_install_prev = install
+
+
+def install(world):
+    _install_prev(world)
+    world.handlers[("StatsDict", "values")] = lambda ex, st, d, a, k, n, s: ObjV("AdapterStatsList", {"source": d.fields["__id__"], "__id__": fresh("id.list", I)})
+    LCAT = z3.Function("LIST_CONCAT", I, I, I)
+    world.handlers[("AdapterStatsList", "__iadd__")] = lambda ex, st, l, a, k, n, s: ObjV(
+        "AdapterStatsList", {"source": LCAT(l.fields["source"], a[0].fields["source"]), "__id__": fresh("id.list", I)})
+    prev_list = world.builtins["list"]
+
+    def b_list(ex, st, args, kwargs, node, spec):
+        if args and isinstance(args[0], ObjV) and args[0].cls == "AdapterStatsList":
+            return args[0]
+        return prev_list(ex, st, args, kwargs, node, spec)
+    world.builtins["list"] = b_list
+
+
+def collect_spec(cx):
+    def lift(v):
+        if isinstance(v, Opt):
+            return v
+        if v is None:
+            return Opt(z3.BoolVal(True), z3.IntVal(0))
+        return Opt(z3.BoolVal(False), v)
+
+    def added(new, old, amount):
+        """Optional[int] `new` is `old` (None counting as absent) plus amount"""
+        new, old = lift(new), lift(old)
+        return z3.And(z3.Not(new.none), new.val == z3.If(old.none, 0, old.val) + amount)
+
+    def same(new, old):
+        new, old = lift(new), lift(old)
+        return z3.And(new.none == old.none, z3.Implies(z3.Not(old.none), new.val == old.val))
+
+    cx.spec.update(added=added, same=same)
+
+
+SAME_OTHERS = "same(self.with_adapters[0], old(self.with_adapters)[0]) and same(self.with_adapters[1], old(self.with_adapters)[1])"
+SAME_Q = "same(self.quality_trimmed_bp[{k}], old(self.quality_trimmed_bp)[{k}])"
+SAME_RC = "same(self.reverse_complemented, old(self.reverse_complemented))"
+
+
+def collect_instance(tag, mtype, ensures, mutants=()):
+    @contract("report.py", "Statistics._collect_modifier", props=["C04", "C20"], name=f"Statistics._collect_modifier@{tag}")
+    def _c(c):
+        c.types(self=CollectT, m=mtype)
+        c.modifies = ["self"]
+        c.spec(collect_spec)
+        c.ensures(**ensures)
+        for old, new in mutants:
+            c.mutant(old, new)
+    return _c
+
+
+QT = ObjT("QualityTrimmer", trimmed_bases=Int)
+collect_quality = collect_instance("QualityTrimmer", QT, dict(
+    removed_bases_of_a_single_end_quality_trimmer_go_to_read_1="added(self.quality_trimmed_bp[0], old(self.quality_trimmed_bp)[0], m.trimmed_bases) and " + SAME_Q.format(k=1),
+    nothing_else_changes=SAME_OTHERS + " and " + SAME_RC),
+    mutants=[("self.quality_trimmed_bp[i] = add_if_not_none(self.quality_trimmed_bp[i], modifier.trimmed_bases)",
+              "self.quality_trimmed_bp[i] = modifier.trimmed_bases")])
+collect_wrapper = collect_instance("PairedEndModifierWrapper", ObjT("PairedEndModifierWrapper", _modifier1=OptT(QT), _modifier2=OptT(QT)), dict(
+    each_mate_gets_the_bases_removed_by_its_own_trimmer=
+    "implies(not is_none(m._modifier1), added(self.quality_trimmed_bp[0], old(self.quality_trimmed_bp)[0], val(m._modifier1).trimmed_bases)) and "
+    "implies(is_none(m._modifier1), " + SAME_Q.format(k=0) + ") and "
+    "implies(not is_none(m._modifier2), added(self.quality_trimmed_bp[1], old(self.quality_trimmed_bp)[1], val(m._modifier2).trimmed_bases)) and "
+    "implies(is_none(m._modifier2), " + SAME_Q.format(k=1) + ")",
+    nothing_else_changes=SAME_OTHERS + " and " + SAME_RC),
+    mutants=[("modifiers_list = [(0, m._modifier1), (1, m._modifier2)]", "modifiers_list = [(0, m._modifier2), (1, m._modifier1)]")])
+AC = ObjT("AdapterCutter", with_adapters=Int, adapter_statistics=ObjT("StatsDict"))
+collect_cutter = collect_instance("AdapterCutter", AC, dict(
+    reads_with_adapters_of_a_single_end_cutter_go_to_read_1="added(self.with_adapters[0], old(self.with_adapters)[0], m.with_adapters) and same(self.with_adapters[1], old(self.with_adapters)[1])",
+    nothing_else_changes=SAME_Q.format(k=0) + " and " + SAME_Q.format(k=1) + " and " + SAME_RC),
+    mutants=[("self.with_adapters[i] += modifier.with_adapters", "self.with_adapters[i] = modifier.with_adapters")])
+collect_paired_cutter = collect_instance("PairedAdapterCutter", ObjT("PairedAdapterCutter", with_adapters=Int, adapter_statistics=FixedListT(ObjT("StatsDict"), 2)), dict(
+    pairs_with_adapters_reported_for_both_mates="not is_none(self.with_adapters[0]) and val(self.with_adapters[0]) == m.with_adapters and "
+                                                "not is_none(self.with_adapters[1]) and val(self.with_adapters[1]) == m.with_adapters",
+    each_mate_gets_its_own_adapter_statistics="self.adapter_stats[0].source == m.adapter_statistics[0].__id__ and self.adapter_stats[1].source == m.adapter_statistics[1].__id__",
+    nothing_else_changes=SAME_Q.format(k=0) + " and " + SAME_Q.format(k=1) + " and " + SAME_RC),
+    mutants=[("self.adapter_stats[i] = list(m.adapter_statistics[i].values())", "self.adapter_stats[i] = list(m.adapter_statistics[0].values())")])
+RC = ObjT("ReverseComplementer", adapter_cutter=AC, reverse_complemented=Int)
+collect_revcomp = collect_instance("ReverseComplementer", RC, dict(
+    reads_with_adapters_come_from_the_wrapped_cutter="added(self.with_adapters[0], old(self.with_adapters)[0], m.adapter_cutter.with_adapters)",
+    reverse_complemented_count_taken_over="added(self.reverse_complemented, old(self.reverse_complemented), m.reverse_complemented) or "
+                                          "(is_none(old(self.with_adapters)[0]) and val(self.reverse_complemented) == m.reverse_complemented)"),
+    mutants=[("self.reverse_complemented = modifier.reverse_complemented", "self.reverse_complemented = modifier.adapter_cutter.with_adapters")])
